@@ -249,6 +249,33 @@ func (in *Interp) symStrBinop(op token.Token, a, b Value) Value {
 		}
 		return &SymStr{Tag: "concat"}
 	}
+	if op == token.LSS || op == token.LEQ || op == token.GTR || op == token.GEQ {
+		// lexicographic order of byte-vector strings (lengths are concrete)
+		x, ok1 := in.byteTerms(a)
+		y, ok2 := in.byteTerms(b)
+		if ok1 && ok2 && (isByteStr(a) || isByteStr(b)) {
+			if op == token.GTR || op == token.GEQ {
+				x, y = y, x
+			}
+			// now decide x < y (LSS, GTR) or x <= y (LEQ, GEQ)
+			n := len(x)
+			if len(y) < n {
+				n = len(y)
+			}
+			var alts []*sym.Term
+			prefix := in.B.True()
+			for i := 0; i < n; i++ {
+				alts = append(alts, in.B.And(prefix, in.B.ULt(x[i], y[i])))
+				prefix = in.B.And(prefix, in.B.Eq(x[i], y[i]))
+			}
+			if op == token.LSS || op == token.GTR {
+				alts = append(alts, in.B.And(prefix, in.B.Bool(len(x) < len(y))))
+			} else {
+				alts = append(alts, in.B.And(prefix, in.B.Bool(len(x) <= len(y))))
+			}
+			return in.B.Or(alts...)
+		}
+	}
 	in.unmodelled("string operator " + op.String() + " on a symbolic string")
 	return nil
 }
